@@ -39,6 +39,7 @@ from .validation import (
 )
 from .parameter_validation import (
     validate_params,
+    validate_landmark_params,
     validate_cov_func_curry,
     validate_cov_func,
 )
@@ -353,6 +354,16 @@ class BaseEstimator:
         n_samples = self.x.shape[0]
         n_landmarks = self.n_landmarks
         landmarks = self.landmarks
+        if (
+            gp_type == GaussianProcessType.FIXED
+            and landmarks is not None
+            and landmarks.shape[0] == n_samples < n_landmarks
+            and not (
+                landmarks.shape == self.x.shape and bool((landmarks == self.x).all())
+            )
+        ):
+            # Only the cells themselves stand in for a larger number of requested landmarks.
+            validate_landmark_params(n_landmarks, landmarks)
         validate_params(rank, gp_type, n_samples, n_landmarks, landmarks)
 
     def _run_inference(self):
